@@ -236,6 +236,23 @@ def extra_cases(S, tier):
         decl = ("struct", "Msg", tuple(("f%d" % i, i, t, None, None) for i, t in enumerate(fields)))
         sig = tuple(("f%d" % i, (("endianess", "big"),)) for i in big)
         cases.append(("big-endian-odd", sum(t[1] for t in fields), [decl, ("impl", "can", "Msg", None, (("id", 2), ("device", "ecu")), sig)]))
+    # (c) the same odd big-endian placements behind a multiplexing relation, which a DBC library's own overlap
+    # check does not follow: selector in a nested struct, mux_signal without mux_count, selector that does not exist
+    sensor = ("struct", "Sensor", (("sensor_id", 0, U(4), None, None), ("reading", 1, U(12), None, None)))
+    report = ("struct", "Msg", (("counter", 0, U(48), None, None), ("sensor", 1, ("ref", "Sensor"), None, None)))
+    flat = ("struct", "Msg", (("kind", 0, U(4), None, None), ("level", 1, U(12), None, None), ("stamp", 2, U(48), None, None)))
+    flat2 = ("struct", "Msg", (("stamp", 0, U(48), None, None), ("kind", 1, U(4), None, None), ("level", 2, U(12), None, None)))
+    big = ("endianess", "big")
+    for label, decl_list, sig in (
+        ("nested-selector", [sensor, report], (("reading", (("mux_count", 4), ("mux_signal", "sensor_id"), big)),)),
+        ("mux-without-count", [flat], (("level", (("mux_signal", "kind"), big)),)),
+        ("mux-without-count-last", [flat2], (("level", (("mux_signal", "kind"), big)),)),
+        ("unknown-selector", [flat], (("level", (("mux_signal", "nope"), ("mux_count", 2), big)),)),
+        ("unknown-selector-last", [flat2], (("level", (("mux_signal", "nope"), ("mux_count", 2), big)),)),
+        ("valid-mux", [flat2], (("level", (("mux_signal", "kind"), ("mux_count", 2), big)),)),
+        ("count-without-selector", [flat2], (("level", (("mux_count", 2), big)),)),
+    ):
+        cases.append(("big-endian-odd-muxed:" + label, 64, decl_list + [("impl", "can", "Msg", None, (("id", 2), ("device", "ecu")), sig)]))
     for kind, bits, decls in cases:
         text = print_schema(decls)
         fcp = get_fcp_from_string(text, Logger({})).unwrap()
